@@ -209,26 +209,29 @@ fn build(tier: Tier) -> Vec<Case> {
         let s = gs1_seed_big();
         let n = s.pairs().len();
         let mut add = |cuts: Vec<usize>, reorder: bool, dup: bool| {
-            let st = s.clone();
-            let c2 = cuts.clone();
-            v.push(Case {
-                label: format!(
-                    "gamespy1 {} parts cuts={cuts:?}{}{}",
-                    cuts.len() + 1,
-                    if reorder { " all orders" } else { " in order" },
-                    if dup { " + one duplicate" } else { "" }
-                ),
-                family: "gamespy1-parts",
-                server: Arc::new(move || {
-                    Box::new(Gs1Server {
-                        state: st.clone(),
-                        cut_at: c2.clone(),
-                    })
-                }),
-                call: Arc::new(|| j(gamespy::one::query(&addr(), None))),
-                reorder,
-                dup,
-            });
+            for vars in [false, true] {
+                let st = s.clone();
+                let c2 = cuts.clone();
+                v.push(Case {
+                    label: format!(
+                        "gamespy1{} {} parts cuts={cuts:?}{}{}",
+                        if vars { " query_vars" } else { "" },
+                        cuts.len() + 1,
+                        if reorder { " all orders" } else { " in order" },
+                        if dup { " + one duplicate" } else { "" }
+                    ),
+                    family: "gamespy1-parts",
+                    server: Arc::new(move || {
+                        Box::new(Gs1Server {
+                            state: st.clone(),
+                            cut_at: c2.clone(),
+                        })
+                    }),
+                    call: if vars { Arc::new(|| j(gamespy::one::query_vars(&addr(), None))) } else { Arc::new(|| j(gamespy::one::query(&addr(), None))) },
+                    reorder,
+                    dup,
+                });
+            }
         };
         let step = if thorough { 1 } else { 3 };
         let mut at = 1;
@@ -250,21 +253,25 @@ fn build(tier: Tier) -> Vec<Case> {
         let first = s.first_data_atom();
         let n = s.n_atoms();
         let mut add = |cuts: Vec<usize>, reorder: bool, dup: bool| {
-            let st = s.clone();
-            let c2 = cuts.clone();
-            v.push(Case {
-                label: format!(
-                    "gamespy3 {} packets cuts={cuts:?}{}{}",
-                    cuts.len() + 1,
-                    if reorder { " all orders" } else { " in order" },
-                    if dup { " + one duplicate" } else { "" }
-                ),
-                family: "gamespy3-splitnum",
-                server: Arc::new(move || Box::new(Gs3Server::new(st.clone(), c2.clone()))),
-                call: Arc::new(|| j(gamespy::three::query(&addr(), None))),
-                reorder,
-                dup,
-            });
+            // (both entry points: the full query and the raw-variables query reassemble the same packets)
+            for vars in [false, true] {
+                let st = s.clone();
+                let c2 = cuts.clone();
+                v.push(Case {
+                    label: format!(
+                        "gamespy3{} {} packets cuts={cuts:?}{}{}",
+                        if vars { " query_vars" } else { "" },
+                        cuts.len() + 1,
+                        if reorder { " all orders" } else { " in order" },
+                        if dup { " + one duplicate" } else { "" }
+                    ),
+                    family: "gamespy3-splitnum",
+                    server: Arc::new(move || Box::new(Gs3Server::new(st.clone(), c2.clone()))),
+                    call: if vars { Arc::new(|| j(gamespy::three::query_vars(&addr(), None))) } else { Arc::new(|| j(gamespy::three::query(&addr(), None))) },
+                    reorder,
+                    dup,
+                });
+            }
         };
         let step = if thorough { 1 } else { 3 };
         let mut at = first;
@@ -282,13 +289,19 @@ fn build(tier: Tier) -> Vec<Case> {
     }
     // ---- Unreal 2 (rules list and players list)
     for which in 0 .. 2 {
-        for (k, long) in (2 ..= kmax).map(|k| (k, false)).chain([(2usize, true), (3, true)]) {
+        // (k, long datagrams, twins: two players equal in every field, one closing a datagram and one opening a later,
+        // non-neighbouring one - some arrival orders make them neighbours)
+        for (k, long, twins) in (2 ..= kmax).map(|k| (k, false, false)).chain([(2usize, true, false), (3, true, false), (3, false, true), (4, false, true)]) {
+            if twins && which == 0 {
+                continue;
+            }
             for (reorder, dup) in if k <= 4 { vec![(true, true)] } else { vec![(true, false), (false, true)] } {
                 v.push(Case {
                     label: format!(
-                        "unreal2 {} in {k} datagrams{}{}{}",
+                        "unreal2 {} in {k} datagrams{}{}{}{}",
                         ["rules", "players"][which],
                         if long { " of 500-1000 bytes each" } else { "" },
+                        if twins { " with two equal entries in different datagrams" } else { "" },
                         if reorder { " all orders" } else { " in order" },
                         if dup { " + one duplicate" } else { "" }
                     ),
@@ -296,6 +309,10 @@ fn build(tier: Tier) -> Vec<Case> {
                     server: Arc::new(move || {
                         let mut st = gen_u2(&mut Chooser::new(&[]), &[12], &[12]);
                         st.num_players = 12;
+                        if twins {
+                            let per = st.players.len() / k;
+                            st.players[2 * per] = st.players[per - 1].clone();
+                        }
                         if long {
                             // (values and names near the format's 127-character limit: whichever datagram arrives first is long)
                             // (only in the list under test: the other one goes out in a single datagram of at most 1024 bytes)
@@ -363,7 +380,7 @@ impl Prop for C08 {
     fn n_cases(&self, tier: Tier) -> usize { cases(tier).len() }
     fn case_label(&self, tier: Tier, idx: usize) -> String { cases(tier)[idx].label.clone() }
     fn rule(&self) -> String {
-        "case = (format: Valve Source split / GoldSrc split of info, players or rules; GameSpy 1 parts; GameSpy 3 splitnum \
+        "both GameSpy entry points (query, query_vars); Unreal 2 lists also with datagrams of 500-1000 bytes and with two equal entries in different datagrams. case = (format: Valve Source split / GoldSrc split of info, players or rules; GameSpy 1 parts; GameSpy 3 splitnum \
          packets; Unreal 2 rules / players lists) x fragment boundaries (k = 2 at every boundary, k = 3..6 at even field edges, \
          thorough also +-1). The virtual network holds the set of in-flight datagrams; at every receive any of them may arrive \
          next: ALL k! delivery orders are enumerated for k = 2..6 (no sampling), and on top of every order for k <= 4 (and of the \
